@@ -1,10 +1,19 @@
 (* C07 — Prepare accepts exactly the statements that are well-typed for the
-   samples.  Property theorems only; proofs are in Proofs/. *)
+   samples.  Prepare succeeds iff every type named in the query has exactly
+   one sample (matched by unqualified type name, case-sensitively), every
+   sample is named by the query, every struct member referenced exists as a
+   db tag, each syntactic form is applied to a suitable kind (slice syntax to
+   named slices, asterisk to structs or to a map with explicit columns,
+   members to structs or maps), column and destination counts agree, and no
+   field or key is the destination of two output columns.
+   The theorems below are the necessary conditions of acceptance.
+   Property theorems only; proofs are in Proofs/. *)
+From Coq Require Import String.
 From SQLair.Base Require Import Bytes.
-From SQLair.Model Require Import GenConsts Reflect TypeInfo Bind.
-From SQLair.Proofs Require Import BindFacts.
+From SQLair.Model Require Import GenConsts Reflect TypeInfo Parser Bind.
+From SQLair.Proofs Require Import BindFacts TotalityProofs BindTypesProofs ExampleEnv.
 
-(* If the samples are accepted, no two of them have the same type name. *)
+(* (a) If the samples are accepted, no two of them have the same type name. *)
 Theorem C07_samples_unique :
   forall env samples infos,
     generate_arg_info env samples [] = BOk infos -> NoDup (map fst infos).
@@ -12,3 +21,155 @@ Proof.
   intros env samples infos H. eapply generate_arg_info_nodup; [|exact H]. constructor.
 Qed.
 Print Assumptions C07_samples_unique.
+
+(* samples are matched by unqualified type name: what is found under a name is
+   the information of a sample whose type has exactly that name, of that kind *)
+Theorem C07_samples_by_name :
+  forall env samples infos n a,
+    generate_arg_info env samples [] = BOk infos -> assoc_str n infos = Some a ->
+    exists t, In (Some t) samples /\ t_name (tget env t) = n /\ ai_type a = t /\
+      match a with
+      | StructInfo _ _ _ => t_kind (tget env t) = KStruct
+      | MapInfo _ => t_kind (tget env t) = KMap /\ t_keystr (tget env t) = true
+      | SliceInfo _ => t_kind (tget env t) = KSlice
+      end.
+Proof. exact infos_from_samples. Qed.
+Print Assumptions C07_samples_by_name.
+
+(* (b) every type named in an accepted statement has a sample *)
+Theorem C07_named_types_have_samples :
+  forall env es samples tbe infos,
+    bind_types env es samples = BOk tbe -> generate_arg_info env samples [] = BOk infos ->
+    forall n, In n (flat_map type_names es) -> In n (map fst infos).
+Proof. exact named_types_have_samples. Qed.
+Print Assumptions C07_named_types_have_samples.
+
+(* (c) every sample is named by an accepted statement *)
+Theorem C07_samples_are_named :
+  forall env es samples tbe infos,
+    bind_types env es samples = BOk tbe -> generate_arg_info env samples [] = BOk infos ->
+    forall n, In n (map fst infos) -> In n (flat_map type_names es).
+Proof. exact samples_are_named. Qed.
+Print Assumptions C07_samples_are_named.
+
+(* (d) an input $T.m: m is a db tag of the struct T, or T is a map; never a slice *)
+Theorem C07_member_inputs_typed :
+  forall env es samples tbe infos,
+    bind_types env es samples = BOk tbe -> generate_arg_info env samples [] = BOk infos ->
+    forall r ma, In (MemberIn r ma) es ->
+    exists a, assoc_str (tname ma) infos = Some a /\ member_ok a (mname ma).
+Proof. exact member_inputs_typed. Qed.
+Print Assumptions C07_member_inputs_typed.
+
+(* (d) slice syntax $S[:] is applied to a (named) slice type only *)
+Theorem C07_slice_inputs_typed :
+  forall env es samples tbe infos,
+    bind_types env es samples = BOk tbe -> generate_arg_info env samples [] = BOk infos ->
+    forall r t, In (SliceIn r t) es -> exists st, assoc_str t infos = Some (SliceInfo st).
+Proof. exact slice_inputs_typed. Qed.
+Print Assumptions C07_slice_inputs_typed.
+
+(* (d) destinations: &T.m is a tag of the struct T or a key of the map T; &T.*
+   is a struct with tags, or - with explicit columns only - every column is a
+   tag of the struct T or T is a map *)
+Theorem C07_output_targets_typed :
+  forall env es samples tbe infos,
+    bind_types env es samples = BOk tbe -> generate_arg_info env samples [] = BOk infos ->
+    forall r cols targets, In (Output r cols targets) es ->
+    forall t, In t targets ->
+    exists a, assoc_str (tname t) infos = Some a /\
+      (is_star (mname t) = false -> member_ok a (mname t)) /\
+      (is_star (mname t) = true ->
+         (exists tg tags fields, a = StructInfo tg tags fields /\ tags <> []) \/
+         (cols <> [] /\ starCountColumns cols = 0 /\
+          forall c, In c cols -> member_ok a (columnName c))).
+Proof. exact output_targets_typed. Qed.
+Print Assumptions C07_output_targets_typed.
+
+(* (e) no field or key is the destination of two output columns, across all
+   output expressions of the statement *)
+Theorem C07_outputs_distinct :
+  forall env es samples tbe,
+    bind_types env es samples = BOk tbe ->
+    NoDup (map (loc_identifier env) (out_locators tbe)).
+Proof. exact outputs_distinct. Qed.
+Print Assumptions C07_outputs_distinct.
+
+(* (f) column and destination counts agree *)
+Theorem C07_output_counts_agree :
+  forall env es samples tbe,
+    bind_types env es samples = BOk tbe ->
+    forall r cols targets, In (Output r cols targets) es ->
+    starCountColumns cols = 0 -> starCountTypes targets = 0 -> cols <> [] ->
+    length cols = length targets.
+Proof. exact output_counts_agree. Qed.
+Print Assumptions C07_output_counts_agree.
+
+Theorem C07_basic_insert_counts_agree :
+  forall env es samples tbe,
+    bind_types env es samples = BOk tbe ->
+    forall r cols vals, In (BasicIns r cols vals) es -> length cols = length vals.
+Proof. exact basic_insert_counts_agree. Qed.
+Print Assumptions C07_basic_insert_counts_agree.
+
+(* Completeness at the sample level: the samples are accepted iff each one on
+   its own is acceptable (not nil; a struct, map or slice; named; a map has
+   string keys; the fields of a struct can be analysed and no db tag occurs
+   twice) and no two samples have the same type name. *)
+Theorem C07_samples_accepted_iff :
+  forall env samples, is_ok (generate_arg_info env samples []) = samples_ok env samples.
+Proof. exact samples_accepted_iff. Qed.
+Print Assumptions C07_samples_accepted_iff.
+
+(* ------------------------------------------------------------ examples -- *)
+Local Open Scope string_scope.
+(* ex_select:  SELECT &Person.* FROM t WHERE id = $M.id AND n IN ($Ints[:])
+   with samples Person (struct, tags id and name), M (map), Ints (slice) *)
+
+Example C07_ex_accepts :
+  is_ok (bind_types ex_env ex_select ex_select_samples) = true /\
+  map fst (ok_or [] (generate_arg_info ex_env ex_select_samples [])) = [s "Person"; s "M"; s "Ints"] /\
+  flat_map type_names ex_select = [s "Person"; s "M"; s "Ints"] /\
+  length (out_locators ex_select_tbe) = 2.
+Proof. repeat split; vm_compute; reflexivity. Qed.
+
+Definition ex_out (cols : list column) (targets : list macc) : list expr :=
+  [Bypass (s "SELECT "); Output (s "...") cols targets; Bypass (s " FROM t")].
+
+Example C07_ex_missing_sample :
+  bind_types ex_env ex_select [Some 2; Some 3] = BErr ETypeMissing.
+Proof. vm_compute. reflexivity. Qed.
+Example C07_ex_unused_sample :
+  bind_types ex_env ex_insert [Some 2; Some 3] = BErr EUnusedSample.
+Proof. vm_compute. reflexivity. Qed.
+Example C07_ex_same_name_samples :   (* types 2 and 11 are both called Person *)
+  bind_types ex_env ex_insert [Some 2; Some 11] = BErr ESameNameSample.
+Proof. vm_compute. reflexivity. Qed.
+Example C07_ex_no_such_tag :
+  bind_types ex_env (ex_out [] [ma "Person" "address"]) [Some 2] = BErr ENoTag.
+Proof. vm_compute. reflexivity. Qed.
+Example C07_ex_slice_syntax_on_struct :
+  bind_types ex_env [SliceIn (s "$Person[:]") (s "Person")] [Some 2] = BErr ESliceSyntaxStruct.
+Proof. vm_compute. reflexivity. Qed.
+Example C07_ex_map_asterisk :
+  bind_types ex_env (ex_out [] [ma "M" "*"]) [Some 3] = BErr EMapAsterisk.
+Proof. vm_compute. reflexivity. Qed.
+Example C07_ex_map_asterisk_with_columns :
+  is_ok (bind_types ex_env (ex_out [BasicCol [] (s "a"); BasicCol [] (s "b")] [ma "M" "*"]) [Some 3]) = true.
+Proof. vm_compute. reflexivity. Qed.
+Example C07_ex_counts_differ :
+  bind_types ex_env (ex_out [BasicCol [] (s "a"); BasicCol [] (s "b")] [ma "Person" "id"]) [Some 2]
+  = BErr EMismatchColsTypes.
+Proof. vm_compute. reflexivity. Qed.
+Example C07_ex_destination_twice :
+  bind_types ex_env (ex_out [] [ma "Person" "id"; ma "Person" "*"]) [Some 2] = BErr EMultipleOutputs.
+Proof. vm_compute. reflexivity. Qed.
+
+Example C07_ex_samples_ok :
+  samples_ok ex_env ex_select_samples = true /\
+  samples_ok ex_env [Some 2; Some 11] = false /\    (* two types called Person *)
+  samples_ok ex_env [Some 2; None] = false /\       (* nil *)
+  samples_ok ex_env [Some 4] = false /\             (* pointer *)
+  samples_ok ex_env [Some 5] = false /\             (* unnamed slice *)
+  samples_ok ex_env [Some 9] = false.               (* embeds itself *)
+Proof. repeat split; vm_compute; reflexivity. Qed.
